@@ -45,6 +45,17 @@ func abnormal(s *verifsim.Sim, what string) *Violation {
 // garbage writes corrupted versions of some project files to the disk (the model is
 // left alone, so Project.WriteTo restores them): a torn or concurrent write as the
 // build sees it.
+// danglingLinks: paths that garbage() turned into dangling symbolic links; healing removes
+// the links before the files are written again (a write would go through the link).
+var danglingLinks []string
+
+func healLinks(d *verifsim.Disk) {
+	for _, l := range danglingLinks {
+		d.RemoveAll(l)
+	}
+	danglingLinks = danglingLinks[:0]
+}
+
 func garbage(g G, p *Project, d *verifsim.Disk, tape *verifsim.Tape) []string {
 	files := p.Render()
 	names := make([]string, 0, len(files))
@@ -56,6 +67,19 @@ func garbage(g G, p *Project, d *verifsim.Disk, tape *verifsim.Tape) []string {
 	n := 1 + g.n(4)
 	for i := 0; i < n; i++ {
 		k := names[g.n(len(names))]
+		if g.n(6) == 0 {
+			// the file is replaced by a symbolic link whose target does not exist (or that
+			// points at itself): lstat succeeds, following the link fails
+			d.RemoveAll(p.Root + "/" + k)
+			target := "gone-" + fmt.Sprint(g.n(100))
+			if g.n(3) == 0 {
+				target = k[strings.LastIndex(k, "/")+1:]
+			}
+			d.Symlink(target, p.Root+"/"+k)
+			danglingLinks = append(danglingLinks, p.Root+"/"+k)
+			out = append(out, fmt.Sprintf("dangling-symlink(%s) %s", target, k))
+			continue
+		}
 		c, how := verifsim.Corrupt(tape, []byte(files[k]))
 		if g.n(3) == 0 {
 			c2, how2 := verifsim.Corrupt(tape, c)
@@ -68,6 +92,7 @@ func garbage(g G, p *Project, d *verifsim.Disk, tape *verifsim.Tape) []string {
 }
 
 func scenarioC16(rc *RunCtx) *Violation {
+	danglingLinks = danglingLinks[:0]
 	g := rc.G
 	p := GenProject(g, "/p")
 	o := GenOptions(g, p)
@@ -266,6 +291,7 @@ func scenarioC16(rc *RunCtx) *Violation {
 			return strings.Join(es, ", ")
 		}
 		// heal: restore every file of the model
+		healLinks(dd)
 		pp.WriteTo(dd, false)
 		return "heal"
 	}
